@@ -108,7 +108,9 @@ impl NetcodeClient {
             ClientAuthentication::Secure { connect_token } => connect_token,
         };
 
-        let server_addr = connect_token.server_addresses[0].expect("cannot create or deserialize a ConnectToken without a server address");
+        let Some(server_addr) = connect_token.server_addresses[0] else {
+            return Err(NetcodeError::NoMoreServers);
+        };
 
         Ok(Self {
             sequence: 0,
